@@ -368,7 +368,10 @@ func sellerExec(tr *vh.Transcript, ops []string) {
 		case "purchased":
 			if c := w.chain.Get(sellerAddr(f[1])); c != nil {
 				setC(c, m)
-				c.State, c.Buyer, c.StartsAt = 1, common.HexToAddress("0xb1"), time.Now().Unix()
+				// the purchase carries the block's time stamp, which may run a few seconds ahead of this node's clock
+				var ahead int64
+				fmt.Sscan(m["ahead"], &ahead)
+				c.State, c.Buyer, c.StartsAt = 1, common.HexToAddress("0xb1"), time.Now().Unix()+ahead
 				go w.chain.Emit(c.Addr, "contractPurchased", c.Buyer)
 			}
 		case "closed":
@@ -581,6 +584,9 @@ func sellerGen(r *vh.Rng) []string {
 				ops = append(ops, fmt.Sprintf("purchased %s payload=%s", c, vh.Pick(r, kinds)))
 			} else {
 				ops = append(ops, fmt.Sprintf("purchased %s len=%d hr=1000 payload=%s", c, vh.Pick(r, []int{120, 300, 600}), vh.Pick(r, kinds)))
+			}
+			if r.Bool(25) && !rpcFail {
+				ops[len(ops)-1] += fmt.Sprintf(" ahead=%d", 1+r.Intn(4)) // the block's clock runs ahead of the node's
 			}
 			running[c], newTerms[c] = true, false
 		case k < 42 && running[c]:
